@@ -46,13 +46,14 @@ type Contract struct {
 	Emits        string // name of callback parameter for the emit idiom
 	Inline       bool
 	LocalEffects bool
+	Unfold       []string // opaque definitions whose defining equation is added as a triggered axiom
 	Applies      []*ECall // lemma instances assumed at entry
 	NoBatch      bool
-	Chunk        int // maximal number of split instances per solver process (0: default)
+	Chunk        int                 // maximal number of split instances per solver process (0: default)
 	AssumeCall   map[string][]Clause // callee name -> restriction assumed on its results at call sites in this function
-	Modifies     []string // ghost relations the function may change
-	ParamNames   []string // receiver and argument names of an interface method contract
-	NoOverflow   bool // do not generate overflow obligations (documented)
+	Modifies     []string            // ghost relations the function may change
+	ParamNames   []string            // receiver and argument names of an interface method contract
+	NoOverflow   bool                // do not generate overflow obligations (documented)
 	Local        bool
 	LoopFrame    bool
 	QuickStride  int
@@ -307,6 +308,13 @@ func (cs *ContractSet) parseFile(path, pkgDir string) error {
 				return fail("nobatch outside a contract")
 			}
 			cur.NoBatch = true
+		case "unfold":
+			// unfold <opaque definition>: its defining equation is available as an axiom triggered by applications of
+			// the symbol (unlike reveal, the body is not expanded inside quantified clauses)
+			if cur == nil {
+				return fail("unfold outside a contract")
+			}
+			cur.Unfold = append(cur.Unfold, strings.Fields(rest)...)
 		case "chunk":
 			// chunk N: at most N split instances per solver process (arithmetic-heavy instances are faster alone)
 			if cur == nil {
@@ -388,7 +396,7 @@ func (cs *ContractSet) parseFile(path, pkgDir string) error {
 				return fail("apply: want 'apply <lemma>(args)'")
 			}
 			cur.Applies = append(cur.Applies, call)
-		case "define", "defineopaque", "defineopaqueint":
+		case "define", "defineopaque", "defineopaqueint", "defineopaquestr", "defineopaquestrs":
 			// define name(a, b:str) = expr
 			eq := strings.Index(rest, "=")
 			if eq < 0 {
@@ -423,8 +431,10 @@ func (cs *ContractSet) parseFile(path, pkgDir string) error {
 				return fail("%v", err)
 			}
 			d.Body = e
-			d.Opaque = word == "defineopaque" || word == "defineopaqueint"
+			d.Opaque = strings.HasPrefix(word, "defineopaque")
 			d.IntResult = word == "defineopaqueint"
+			d.StrResult = word == "defineopaquestr"
+			d.StrsResult = word == "defineopaquestrs"
 			cs.Defs[d.Name] = d
 		case "props":
 			if cur != nil {
